@@ -511,7 +511,7 @@ def compact_eligible(c, ctx):
     return len(c["fields"]) == 1 and res["required"] == [c["fields"][0]["name"]] and not res["additional"]
 
 
-def image_cases(rnd, ctx, pools, tier, images_per_class=4, n_cor=10, n_deep=0, serialize=None):
+def image_cases(rnd, ctx, pools, tier, images_per_class=4, n_cor=10, n_deep=0):
     """cases of one world: images of valid instances, single-point corruptions, non-object documents"""
     from typedpy import Serializer
     cases = []
